@@ -50,6 +50,11 @@ type Byz struct {
 	OmitDowngradeSentinel   bool   // do not put the RFC 8446 downgrade sentinel into the random
 	ForceDowngradeSentinel  bool   // put it even where a real legacy server would not
 
+	// record layer shapes a compliant peer may choose for its application data (all legal):
+	RecordPad    func(payloadLen int) int // TLS 1.3 padding zeros for the next record
+	RecordSplit  func(remaining int) int  // payload length of the next record (0: default)
+	EmptyRecords func() int               // zero-length application_data records to send first
+
 	// observations
 	ClientEE          []byte // body of the client EncryptedExtensions message (ALPS), if received
 	ClientEESeen      bool
